@@ -35,13 +35,13 @@ Definition stream_id_bytes (f : fmt) (sid : N) : bytes :=
 Definition extended_timestamp (field : N) : bytes :=
   if field <? SER_MAX_INITIAL_TIMESTAMP then [] else be32 field.
 
-(* fn add_chunk: returns the bytes of one chunk and the new state; Panic 1 = csid guard *)
-Definition add_chunk (st : sstate) (force : bool) (m : msg) (continued : bool) (data : bytes) (drop : bool)
-  : outcome (bytes * sstate) ser_err :=
+Definition with_field (h : shdr) (fld : N) : shdr :=
+  {| s_ts := s_ts h; s_field := fld; s_len := s_len h; s_tid := s_tid h; s_sid := s_sid h; s_drop := s_drop h |}.
+
+(* the header-format decision of add_chunk: format and the header that is written and remembered *)
+Definition decide_header (st : sstate) (force : bool) (m : msg) (continued : bool) (drop : bool) : fmt * shdr :=
   let csid := get_csid_for_message_type (m_tid m) in
   let hdr0 := {| s_ts := m_ts m; s_field := 0; s_len := lenN (m_data m); s_tid := m_tid m; s_sid := m_sid m; s_drop := drop |} in
-  let with_field (h : shdr) (fld : N) :=
-      {| s_ts := s_ts h; s_field := fld; s_len := s_len h; s_tid := s_tid h; s_sid := s_sid h; s_drop := s_drop h |} in
   let '(f, hdr1) :=
     if force then (Full, hdr0)
     else match lookup csid (s_prev st) with
@@ -51,7 +51,13 @@ Definition add_chunk (st : sstate) (force : bool) (m : msg) (continued : bool) (
              else if s_drop prev then (Full, hdr0)
              else let h := with_field hdr0 (sub_values (m_ts m) (s_ts prev)) in (get_header_format h prev, h)
          end in
-  let hdr := match f with Full => with_field hdr1 (s_ts hdr1) | _ => hdr1 end in
+  (f, match f with Full => with_field hdr1 (s_ts hdr1) | _ => hdr1 end).
+
+(* fn add_chunk: returns the bytes of one chunk and the new state; Panic 1 = csid guard *)
+Definition add_chunk (st : sstate) (force : bool) (m : msg) (continued : bool) (data : bytes) (drop : bool)
+  : outcome (bytes * sstate) ser_err :=
+  let csid := get_csid_for_message_type (m_tid m) in
+  let '(f, hdr) := decide_header st force m continued drop in
   match basic_header f csid with
   | None => Panic 1
   | Some bh =>
@@ -97,3 +103,26 @@ Definition set_max_chunk_size (st : sstate) (n : N) (time : N) : outcome (bytes 
     let m := {| m_ts := time; m_tid := TID_SetChunkSize; m_sid := 0; m_data := be32 n |} in
     obind (serialize st m true false) (fun '(b, st') =>
       Ok (b, {| s_prev := s_prev st'; s_max := n |})).
+
+(* a run of the serializer: one packet (bytes) per operation *)
+Inductive ser_op := OpMsg (m : msg) (force drop : bool) | OpSize (n ts : N).
+
+Definition ser_step (st : sstate) (op : ser_op) : outcome (bytes * sstate) ser_err :=
+  match op with
+  | OpMsg m f d => serialize st m f d
+  | OpSize n ts => set_max_chunk_size st n ts
+  end.
+
+Fixpoint ser_run (st : sstate) (ops : list ser_op) : outcome (list bytes * sstate) ser_err :=
+  match ops with
+  | [] => Ok ([], st)
+  | op :: r => obind (ser_step st op) (fun '(b, st') => obind (ser_run st' r) (fun '(bs, st'') => Ok (b :: bs, st'')))
+  end.
+
+(* the message an operation puts on the wire, and whether its packet is marked droppable *)
+Definition op_msg (op : ser_op) : msg :=
+  match op with
+  | OpMsg m _ _ => m
+  | OpSize n ts => {| m_ts := ts; m_tid := TID_SetChunkSize; m_sid := 0; m_data := be32 n |}
+  end.
+Definition op_drop (op : ser_op) : bool := match op with OpMsg _ _ d => d | OpSize _ _ => false end.
